@@ -719,8 +719,12 @@ class InterpolatedPredictionStrategy(DefaultPredictionStrategy):
     def exact_prediction(self, joint_mean, joint_covar):
         # Find the components of the distribution that contain test data
         test_mean = joint_mean[..., self.num_train :]
-        test_test_covar = joint_covar[..., self.num_train :, self.num_train :].evaluate_kernel()
-        test_train_covar = joint_covar[..., self.num_train :, : self.num_train].evaluate_kernel()
+        # Evaluate the test rows of the joint covariance in a single kernel call: a GridInterpolationKernel without
+        # grid_bounds derives its grid from the inputs of each call, and the test-test and test-train blocks (and the
+        # train-train block, whenever the test inputs lie within the range of the training inputs) have to live on one grid.
+        test_covar = joint_covar[..., self.num_train :, :].evaluate_kernel()
+        test_test_covar = test_covar[..., self.num_train :]
+        test_train_covar = test_covar[..., : self.num_train]
 
         return (
             self.exact_predictive_mean(test_mean, test_train_covar),
